@@ -36,7 +36,7 @@ Rec == IF "TRACE" \in DOMAIN IOEnv THEN ndJsonDeserialize(IOEnv.TRACE) ELSE <<>>
 VARIABLES l, viol, stats
 svars == <<l, viol, stats>>
 
-Stats0 == [judged |-> 0, skipped |-> 0, outer |-> 0, shadow |-> 0, names |-> 0, values |-> 0, regvals |-> 0, recur |-> 0]
+Stats0 == [judged |-> 0, skipped |-> 0, outer |-> 0, shadow |-> 0, names |-> 0, values |-> 0, regvals |-> 0, recur |-> 0, sprel |-> 0]
 SInit == l = 1 /\ viol = {} /\ stats = Stats0
 
 SeqSet(s) == {s[i] : i \in 1..Len(s)}
@@ -182,6 +182,8 @@ Bump(e) ==
                    !.names  = @ + Cardinality(S),
                    !.values = @ + Cardinality(known),
                    !.regvals = @ + Cardinality({v \in known : Vars[v].locs[LocAt(v, pc)].form \in {"reg", "regval", "breg", "expr"}}),
+                   \* values of an OUTER frame that DWARF addresses off rsp (DW_OP_breg7): expected = [rsp_k + N], rsp_k = CFA of frame k-1
+                   !.sprel  = @ + Cardinality({v \in known : e.fr > 0 /\ Vars[v].locs[LocAt(v, pc)].form = "breg" /\ Vars[v].locs[LocAt(v, pc)].a = 7}),
                    !.recur  = @ + (IF OtherActs(e, e.fr, pc) # {} THEN 1 ELSE 0)]
 
 Consume ==
